@@ -162,8 +162,8 @@ extern "C" void harness_c05_pow()
 extern "C" void harness_c05_api()
 {
     int ka = (int)verif_choice("ka", 2), kb = (int)verif_choice("kb", 2);
-    long n = verif_param("apimax", 300);
-    RCP<const Number> a = operand(ka, "a", n, 3), b = operand(kb, "b", kb == 0 ? 12 : n, 3);
+    long amax = verif_param("apimax", 300);
+    RCP<const Number> a = operand(ka, "a", amax, 3), b = operand(kb, "b", kb == 0 ? 12 : amax, 3);
     verif_assert(eq(*add(a, b), *a->add(*b)), "add() on numbers is Number::add");
     verif_assert(eq(*mul(a, b), *a->mul(*b)), "mul() on numbers is Number::mul");
     verif_assert(eq(*sub(a, b), *a->sub(*b)), "sub() on numbers is Number::sub");
